@@ -22,6 +22,9 @@ P0 == [ ctype |-> {Root},          \* defined container types
         dead  |-> {},              \* aliases of destroyed containers
         depth |-> [x \in {} |-> 0],   \* <<container, state type>> -> depth of the state stack (absent = 0)
         setv  |-> {},              \* <<container, variable type>> that received a SetVariable (ghost)
+        names |-> {},              \* names of all containers ever created (diagnostic)
+        reinc |-> {},              \* live containers whose name was already borne by an earlier container (diagnostic:
+                                   \* SimGrid destroys and re-creates the container of an actor that migrates)
         last  |-> 0,               \* last timestamp (rank)
         lastk |-> "" ]             \* kind of the event that carried it (diagnostic)
 
@@ -101,9 +104,12 @@ Apply(p, ev) ==
     [] k = "DefineLinkType"      -> [q EXCEPT !.ltype = @ \cup {ev.alias}, !.tparent = AddType(p, ev.alias, ev.type)]
     [] k = "DefineEntityValue"   -> [q EXCEPT !.values = @ \cup {<<ev.type, ev.alias>>}]
     [] k = "CreateContainer"     -> [q EXCEPT !.live = [x \in (DOMAIN p.live) \cup {ev.alias} |-> IF x = ev.alias THEN ev.type ELSE p.live[x]],
-                                              !.dead = @ \ {ev.alias}]
+                                              !.dead = @ \ {ev.alias},
+                                              !.names = @ \cup {ev.name},
+                                              !.reinc = IF ev.name \in p.names THEN @ \cup {ev.alias} ELSE @ \ {ev.alias}]
     [] k = "DestroyContainer"    -> [q EXCEPT !.live = [x \in (DOMAIN p.live) \ {ev.container} |-> p.live[x]],
                                               !.dead = @ \cup {ev.container},
+                                              !.reinc = @ \ {ev.container},
                                               !.depth = [x \in { y \in DOMAIN p.depth : y[1] # ev.container } |-> p.depth[x]]]
     [] k = "SetVariable"         -> [q EXCEPT !.setv = @ \cup {<<ev.container, ev.type>>}]
     [] k \in {"AddVariable", "SubVariable"} -> q
